@@ -692,6 +692,31 @@ def main():
             undecided.append("bounded validation: the stub contracts of %s do not describe the unchanged real code: %s" % (bname, b["input"]))
         elif stale:
             undecided.append("bounded stand-in for %s: %s (%s); the changed SQL is still undecided" % (bname, b["outcome"], b["input"] or ("%d sequences" % b["sequences"])))
+    # ---------------- bounded stand-in for a unit the verifier could not decide
+    # A unit that ends undecided (lost anchor, restructured function, construct outside Verus' reach) and has a replay
+    # search is checked by that search instead: the REAL code of the tree under test is driven through the search's stated
+    # space and compared with the abstract view that the contracts establish on the unchanged tree.  A deviation on a
+    # concrete input is a violation (found by the BOUNDED stand-in, labelled so, with the input); no deviation leaves the
+    # unit undecided - a bounded pass is never counted as a proof.
+    for u, r in zip(units, results):
+        if not r["undecided"] or u["name"] not in replay_mod.SEARCHES or os.environ.get("VERIF_NO_REPLAY") or os.environ.get("VERIF_NO_STANDIN"):
+            continue
+        if any(vu.get("name") == u["name"] for vu, _ob in violations):
+            continue
+        sr = replay_mod._run(*replay_mod.SEARCHES[u["name"]])
+        tags = re.search(r"\{(C\d+(?:,C\d+)*)\}", sr["found"] or "")
+        concerns = tags.group(1).split(",") if tags else u.get("serves", [])
+        bounded_notes.append({"name": "replay search " + u["name"], "bounded": True, "bound": replay_mod.SEARCHES[u["name"]][4], "outcome": sr["outcome"], "input": sr["found"],
+                              "why": "stand-in: the unit is undecided (%s)" % r["undecided"][0][:160]})
+        if sr["found"] and prop in concerns:
+            violations.append((u, {"id": "%s::bounded-stand-in::real-code-deviates-from-the-contracts-abstract-view" % u["name"], "fn": replay_mod.SEARCHES[u["name"]][0], "label": None,
+                                   "where": replay_mod.SEARCHES[u["name"]][0], "src": None,
+                                   "msg": "BOUNDED stand-in (the unit is undecided for the verifier: %s): %s" % (r["undecided"][0][:200], sr["outcome"]),
+                                   "rendered": sr["tail"], "bounded_input": sr["found"], "bounded_cmd": sr["cmd"]}))
+        elif sr["found"]:
+            undecided.append("%s: bounded stand-in found a deviation that concerns %s, not %s: %s" % (u["name"], ",".join(concerns), prop, sr["found"][:300]))
+        else:
+            undecided.append("%s: bounded stand-in: %s (%s); a bounded pass is not a proof, the unit stays undecided" % (u["name"], sr["outcome"], replay_mod.SEARCHES[u["name"]][4][:160]))
     # thorough tier: the replay searches are also run as bounded validations of the abstract view the contracts describe
     # against the real code (no obligation needs to have failed)
     if tier == "thorough" and not violations and not os.environ.get("VERIF_NO_BOUNDED"):
